@@ -1,5 +1,5 @@
 (* C09 — proofs about Model/Diff.v *)
-From PG Require Import Lib.Strs Model.Diff.
+From PG Require Import Lib.Strs Model.Sites Model.Diff Proofs.Sites.
 From Coq Require Import Permutation.
 
 (* ---------- reflection of the boolean equalities ---------- *)
@@ -67,6 +67,28 @@ Proof.
   intros p l. unfold mem_path. rewrite existsb_exists. split.
   - intros [q [Hq E]]. apply path_eqb_eq in E. subst. exact Hq.
   - intro H. exists p. split; [exact H | apply path_eqb_refl].
+Qed.
+
+Lemma wf_lookup_gen : forall {C} (t : list (path * C)) p c, wf_tree t = true -> In (p, c) t -> tlookup p t = Some c.
+Proof.
+  intros C. unfold wf_tree, paths_of. induction t as [|[q c'] t IH]; intros p c Hwf Hin; [contradiction|].
+  simpl in Hwf. apply andb_true_iff in Hwf. destruct Hwf as [Hn Hw]. simpl.
+  destruct Hin as [Hin|Hin].
+  - inversion Hin; subst. rewrite path_eqb_refl. reflexivity.
+  - destruct (path_eqb p q) eqn:E.
+    + apply path_eqb_eq in E. subst q. apply negb_true_iff in Hn.
+      assert (X : mem_path p (map fst t) = true) by (apply mem_path_In; apply in_map_iff; exists (p, c); auto).
+      congruence.
+    + apply IH; assumption.
+Qed.
+
+Lemma Permutation_filter' : forall {A} (f : A -> bool) l1 l2, Permutation l1 l2 -> Permutation (filter f l1) (filter f l2).
+Proof.
+  intros A f l1 l2 H. induction H; simpl.
+  - constructor.
+  - destruct (f x); [constructor|]; assumption.
+  - destruct (f x), (f y); try apply Permutation_refl. apply perm_swap.
+  - eapply Permutation_trans; eassumption.
 Qed.
 
 Lemma mem_path_lookup : forall {C} p (t : list (path * C)),
@@ -232,28 +254,45 @@ Section DedupFacts.
   Proof. intros ids H. unfold dedup_ops. apply dedup_go_nodup; [exact H | intros; reflexivity]. Qed.
 
   (* ---------- the two paths agree under the guard ---------- *)
-  Lemma exceptions_emit_guard : forall g found,
-    guard_F09d g found = true ->
-    exceptions_emit g (if core_inside_out g then [] else found) = exceptions_emit g [].
+  Lemma reg_set_idem : forall k v r, reg_set k v (reg_set k v r) = reg_set k v r.
   Proof.
-    intros g found G. unfold guard_F09d in G. unfold exceptions_emit.
-    destruct (g_shared g) eqn:Es; [|reflexivity]. simpl in G.
-    destruct (core_inside_out g) eqn:Ec; [reflexivity|]. simpl in G.
-    destruct found as [|[k v] [|x r]]; try reflexivity; try discriminate.
-    simpl. apply str_eqb_eq in G. subst k. rewrite str_eqb_refl. reflexivity.
+    induction r as [|[k' v'] r IH]; simpl.
+    - rewrite str_eqb_refl. reflexivity.
+    - destruct (str_eqb k k') eqn:E; simpl; rewrite E; [reflexivity | rewrite IH; reflexivity].
   Qed.
 
-  Theorem modes_agree_partial : forall g found,
-    guard_modes g found = true -> dedup_total san g = true -> tree_force san g found = tree_temp san g.
+  Lemma path_eqb_snoc : forall (p : path) a b, path_eqb (p ++ [a]) (p ++ [b]) = str_eqb a b.
   Proof.
-    intros g found G Hd. unfold guard_modes in G.
-    apply andb_true_iff in G. destruct G as [Gc Gd].
-    unfold tree_force, tree_temp. cbv zeta.
-    assert (E : forall f', f' = (if core_inside_out g then [] else found) ->
-                           exceptions_emit g f' = exceptions_emit g []).
-    { intros f' ->. apply exceptions_emit_guard. exact Gd. }
-    rewrite (E _ eq_refl).
-    unfold guard_F09c in Gc. apply negb_true_iff in Gc. rewrite Gc.
+    unfold path_eqb. induction p as [|x p IH]; intros a b; simpl.
+    - rewrite andb_true_r. reflexivity.
+    - rewrite str_eqb_refl. simpl. apply IH.
+  Qed.
+
+  (* the registry the force run leaves in the core directory is what the next non-force run reads *)
+  Lemma registry_after_force : forall g found,
+    exceptions_emit g (existing_registry g (tree_force san g found)) =
+    exceptions_emit g (if core_inside_out g then [] else found).
+  Proof.
+    intros g found. unfold existing_registry, tree_force. cbv zeta.
+    set (f' := if core_inside_out g then [] else found).
+    unfold exceptions_emit. destruct (g_shared g) eqn:Es; [|reflexivity].
+    unfold emitted. cbn [app tlookup fst snd].
+    rewrite !path_eqb_snoc.
+    replace (str_eqb s_registry_json s_aliases_py) with false by (vm_compute; reflexivity).
+    replace (str_eqb s_registry_json s_init) with false by (vm_compute; reflexivity).
+    replace (str_eqb s_registry_json s_exceptions_py) with false by (vm_compute; reflexivity).
+    replace (str_eqb s_registry_json s_py_typed) with false by (vm_compute; reflexivity).
+    rewrite str_eqb_refl. rewrite reg_set_idem. reflexivity.
+  Qed.
+
+  (* FULL since the fixes of F09c / F09d: the tree the force path writes is the tree the temp-dir path
+     regenerates from the registry that force run left behind ([dedup_total] = fuel adequacy of the model) *)
+  Theorem modes_agree : forall g found,
+    dedup_total san g = true ->
+    tree_force san g found = tree_temp san g (existing_registry g (tree_force san g found)).
+  Proof.
+    intros g found Hd. unfold tree_temp. rewrite registry_after_force.
+    unfold tree_force. cbv zeta.
     unfold dedup_total in Hd. rewrite (dedup_ops_nodup _ Hd). reflexivity.
   Qed.
 
@@ -305,19 +344,31 @@ Section DedupFacts.
     rewrite F, G. reflexivity.
   Qed.
 
-  Theorem rerun_partial : forall g found,
-    guard_modes g found = true -> dedup_total san g = true -> wf_layout san g = true ->
+  Lemma wf_layout_any : forall g found, wf_layout san g = true -> wf_tree (tree_temp san g found) = true.
+  Proof.
+    intros g found H. unfold wf_layout, wf_tree, paths_of in *.
+    assert (E : map fst (tree_temp san g found) = map fst (tree_temp san g [])).
+    { unfold tree_temp. destruct (exceptions_emit g found) as [a1 r1] eqn:E1. destruct (exceptions_emit g []) as [a2 r2] eqn:E2.
+      unfold exceptions_emit in E1, E2. destruct (g_shared g); inversion E1; inversion E2; subst;
+        unfold emitted; rewrite !map_app; simpl; rewrite !map_map; reflexivity. }
+    rewrite E. exact H.
+  Qed.
+
+  Theorem rerun_full : forall g found,
+    dedup_total san g = true -> wf_layout san g = true ->
     run_noforce san g (tree_force san g found) = (ROk, tree_force san g found).
   Proof.
-    intros g found G Hd Hwf. rewrite (modes_agree_partial _ _ G Hd).
-    unfold run_noforce, rerun_differing, under.
-    rewrite !differing_self by (apply wf_filter; exact Hwf).
+    intros g found Hd Hwf. unfold run_noforce, rerun_differing. cbv zeta.
+    rewrite <- (modes_agree g found Hd).
+    assert (W : wf_tree (tree_force san g found) = true).
+    { rewrite (modes_agree g found Hd). apply wf_layout_any. exact Hwf. }
+    unfold under. rewrite !differing_self by (apply wf_filter; exact W).
     destruct (path_eqb (g_core g) (g_out g)); reflexivity.
   Qed.
 
   (* conversely: a common *.py file whose text is not what would be generated now is always reported *)
   Theorem rerun_detects : forall g existing p c c',
-    In (p, c) (under (g_out g) (tree_temp san g)) -> is_py p = true ->
+    In (p, c) (under (g_out g) (tree_temp san g (existing_registry g existing))) -> is_py p = true ->
     tlookup p (under (g_out g) existing) = Some c' -> c' <> c ->
     fst (run_noforce san g existing) = RDifferences.
   Proof.
@@ -325,7 +376,7 @@ Section DedupFacts.
     destruct (rerun_differing san g existing) eqn:E; [|reflexivity]. exfalso.
     unfold rerun_differing in E. apply app_eq_nil in E. destruct E as [E _].
     unfold differing_g in E. apply app_eq_nil in E. destruct E as [E _]. apply map_eq_nil in E.
-    assert (X : In (p, c) (filter (file_differs content_eqb (under (g_out g) existing)) (under (g_out g) (tree_temp san g)))).
+    assert (X : In (p, c) (filter (file_differs content_eqb (under (g_out g) existing)) (under (g_out g) (tree_temp san g (existing_registry g existing))))).
     { apply filter_In. split; [exact Hin|]. unfold file_differs. simpl. rewrite Hpy, Hold. simpl.
       apply negb_true_iff. destruct (content_eqb c' c) eqn:Ec; [|reflexivity].
       apply content_eqb_eq in Ec. contradiction. }
@@ -335,7 +386,7 @@ Section DedupFacts.
   (* since the fix of F09b: a *.py file that would be generated but is missing from the existing output, or a
      stale *.py file in the existing output, makes the non-force run fail as well *)
   Theorem rerun_detects_missing : forall g existing p c,
-    In (p, c) (under (g_out g) (tree_temp san g)) -> is_py p = true ->
+    In (p, c) (under (g_out g) (tree_temp san g (existing_registry g existing))) -> is_py p = true ->
     tlookup p (under (g_out g) existing) = None ->
     fst (run_noforce san g existing) = RDifferences.
   Proof.
@@ -343,21 +394,21 @@ Section DedupFacts.
     destruct (rerun_differing san g existing) eqn:E; [|reflexivity]. exfalso.
     unfold rerun_differing in E. apply app_eq_nil in E. destruct E as [E _].
     unfold differing_g in E. apply app_eq_nil in E. destruct E as [E _]. apply map_eq_nil in E.
-    assert (X : In (p, c) (filter (file_differs content_eqb (under (g_out g) existing)) (under (g_out g) (tree_temp san g)))).
+    assert (X : In (p, c) (filter (file_differs content_eqb (under (g_out g) existing)) (under (g_out g) (tree_temp san g (existing_registry g existing))))).
     { apply filter_In. split; [exact Hin|]. unfold file_differs. simpl. rewrite Hpy, Hold. reflexivity. }
     rewrite E in X. contradiction.
   Qed.
 
   Theorem rerun_detects_stale : forall g existing p c,
     In (p, c) (under (g_out g) existing) -> is_py p = true ->
-    tlookup p (under (g_out g) (tree_temp san g)) = None ->
+    tlookup p (under (g_out g) (tree_temp san g (existing_registry g existing))) = None ->
     fst (run_noforce san g existing) = RDifferences.
   Proof.
     intros g existing p c Hin Hpy Hnew. unfold run_noforce.
     destruct (rerun_differing san g existing) eqn:E; [|reflexivity]. exfalso.
     unfold rerun_differing in E. apply app_eq_nil in E. destruct E as [E _].
     unfold differing_g in E. apply app_eq_nil in E. destruct E as [_ E]. apply map_eq_nil in E.
-    assert (X : In (p, c) (old_only (under (g_out g) existing) (under (g_out g) (tree_temp san g)))).
+    assert (X : In (p, c) (old_only (under (g_out g) existing) (under (g_out g) (tree_temp san g (existing_registry g existing))))).
     { unfold old_only. apply filter_In. split; [exact Hin|]. simpl. rewrite Hpy. simpl.
       apply negb_true_iff. apply mem_path_lookup. exact Hnew. }
     rewrite E in X. contradiction.
@@ -389,31 +440,104 @@ Definition g_F09e : gen_input :=
   {| g_client := s_client; g_out := [s_client]; g_core := [s_client; s_core]; g_core_given := false;
      g_shared := true; g_ops := [(s_default, s_foo); (s_default, s_foo); (s_default, s_foo_2)]; g_codes := [] |}.
 
-Lemma refuted_F09c :
-  guard_F09c g_F09c = false /\ guard_F09d g_F09c [] = true /\
-  tree_force idS g_F09c [] <> tree_temp idS g_F09c /\
-  fst (run_noforce idS g_F09c (tree_force idS g_F09c [])) = RDifferences.
-Proof. repeat split; try (vm_compute; reflexivity). vm_compute. discriminate. Qed.
-
-(* (in the implementation a core outside the package needs core_package, so F09d co-occurs with F09c; the
-   model separates the two mechanisms: here core_given = false) *)
-Lemma refuted_F09d :
-  guard_F09c g_F09d = true /\ guard_F09d g_F09d found_F09d = false /\
-  tree_force idS g_F09d found_F09d <> tree_temp idS g_F09d /\
-  fst (run_noforce idS g_F09d (tree_force idS g_F09d found_F09d)) = RDifferences.
-Proof. repeat split; try (vm_compute; reflexivity). vm_compute. discriminate. Qed.
+(* regression for the fixed F09c (core_package given) and F09d (another client registered in the shared core):
+   the force tree is what the temp path regenerates and the rerun succeeds *)
+Lemma regression_F09c_F09d :
+  tree_force idS g_F09c [] = tree_temp idS g_F09c (existing_registry g_F09c (tree_force idS g_F09c [])) /\
+  tlookup [s_client; s_init] (tree_temp idS g_F09c []) = Some (CRichInit s_client) /\
+  fst (run_noforce idS g_F09c (tree_force idS g_F09c [])) = ROk /\
+  existing_registry g_F09d (tree_force idS g_F09d found_F09d) = [(s_cb, [409]); (s_ca, [404])] /\
+  tlookup [s_shared; s_core; s_aliases_py] (tree_force idS g_F09d found_F09d) = Some (CAliases [404; 409]) /\
+  tree_force idS g_F09d found_F09d = tree_temp idS g_F09d (existing_registry g_F09d (tree_force idS g_F09d found_F09d)) /\
+  fst (run_noforce idS g_F09d (tree_force idS g_F09d found_F09d)) = ROk.
+Proof. repeat split; vm_compute; reflexivity. Qed.
 
 (* regression for the fixed F09e / F07a: ids foo, foo, foo_2 — the pass is collision-free and idempotent, the two
    paths agree and the rerun succeeds *)
 Lemma regression_F09e :
   dedup_ops idS [s_foo; s_foo; s_foo_2] = [s_foo; s_foo_2; s_foo_2 ++ [95;50]] /\
   dedup_ops idS (dedup_ops idS [s_foo; s_foo; s_foo_2]) = dedup_ops idS [s_foo; s_foo; s_foo_2] /\
-  guard_modes g_F09e [] = true /\ dedup_total idS g_F09e = true /\
-  tree_force idS g_F09e [] = tree_temp idS g_F09e /\
+  dedup_total idS g_F09e = true /\
+  tree_force idS g_F09e [] = tree_temp idS g_F09e (existing_registry g_F09e (tree_force idS g_F09e [])) /\
   fst (run_noforce idS g_F09e (tree_force idS g_F09e [])) = ROk.
 Proof. repeat split; vm_compute; reflexivity. Qed.
 
-Lemma guard_modes_nonvacuous :
-  guard_modes g_plain [(s_client, [400])] = true /\ dedup_total idS g_plain = true /\ wf_layout idS g_plain = true /\
-  length (tree_force idS g_plain []) = 15%nat.
+Lemma modes_nonvacuous :
+  dedup_total idS g_plain = true /\ wf_layout idS g_plain = true /\
+  length (tree_force idS g_plain []) = 15%nat /\
+  dedup_total idS g_F09d = true /\ wf_layout idS g_F09d = true.
 Proof. repeat split; vm_compute; reflexivity. Qed.
+
+(* ================================================================================================
+   file-system order: _show_diffs walks both directories with rglob(); the decision and the set of files it
+   names do not depend on the order in which the file system lists the entries *)
+Lemma nodup_paths_NoDup : forall l, nodup_paths l = true <-> NoDup l.
+Proof.
+  induction l as [|q l IH]; simpl; split; intro H; try reflexivity; try constructor.
+  - apply andb_true_iff in H. destruct H as [H _]. apply negb_true_iff in H. intro X. apply mem_path_In in X. congruence.
+  - apply IH. apply andb_true_iff in H. tauto.
+  - inversion H; subst. apply andb_true_iff. split; [|apply IH; assumption].
+    apply negb_true_iff. destruct (mem_path q l) eqn:E; [apply mem_path_In in E; contradiction | reflexivity].
+Qed.
+
+Lemma tlookup_perm : forall {C} (t t' : list (path * C)) p,
+  wf_tree t = true -> Permutation t t' -> tlookup p t = tlookup p t'.
+Proof.
+  intros C t t' p Hwf Hp.
+  assert (Hwf' : wf_tree t' = true).
+  { unfold wf_tree in *. apply nodup_paths_NoDup. apply nodup_paths_NoDup in Hwf.
+    eapply Permutation_NoDup; [apply Permutation_map; exact Hp | exact Hwf]. }
+  destruct (tlookup p t) as [c|] eqn:E.
+  - symmetry. apply (wf_lookup_gen t' p c Hwf'). eapply Permutation_in; [exact Hp | apply tlookup_In; exact E].
+  - destruct (tlookup p t') as [c'|] eqn:E'; [|reflexivity].
+    pose proof (Permutation_in _ (Permutation_sym Hp) (tlookup_In _ _ _ E')) as Hin.
+    destruct (In_tlookup _ _ _ Hin) as [c0 E0]. congruence.
+Qed.
+
+Theorem show_diffs_fs_order : forall old old' new new',
+  wf_tree old = true -> Permutation old old' -> Permutation new new' ->
+  show_diffs old new = show_diffs old' new' /\
+  Permutation (differing_g str_eqb old new) (differing_g str_eqb old' new').
+Proof.
+  intros old old' new new' Hwf Ho Hn.
+  assert (P : Permutation (differing_g str_eqb old new) (differing_g str_eqb old' new')).
+  { unfold differing_g. apply Permutation_app.
+    - apply Permutation_map.
+      rewrite (filter_ext (file_differs str_eqb old) (file_differs str_eqb old')).
+      + apply Permutation_filter'. exact Hn.
+      + intros [p c]. unfold file_differs. simpl. rewrite (tlookup_perm old old' p Hwf Ho). reflexivity.
+    - apply Permutation_map. unfold old_only.
+      rewrite (filter_ext (fun pc : path * str => is_py (fst pc) && negb (mem_path (fst pc) (paths_of new)))
+                          (fun pc : path * str => is_py (fst pc) && negb (mem_path (fst pc) (paths_of new')))).
+      + apply Permutation_filter'. exact Ho.
+      + intros [p c]. simpl. f_equal. f_equal.
+        destruct (mem_path p (paths_of new)) eqn:E1, (mem_path p (paths_of new')) eqn:E2; try reflexivity.
+        * apply mem_path_In in E1. assert (X : In p (paths_of new')) by (eapply Permutation_in; [apply Permutation_map; exact Hn | exact E1]).
+          apply mem_path_In in X. congruence.
+        * apply mem_path_In in E2. assert (X : In p (paths_of new)) by (eapply Permutation_in; [apply Permutation_map; apply Permutation_sym; exact Hn | exact E2]).
+          apply mem_path_In in X. congruence. }
+  split; [|exact P]. unfold show_diffs, show_diffs_g.
+  destruct (differing_g str_eqb old new) eqn:E1, (differing_g str_eqb old' new') eqn:E2; try reflexivity.
+  - apply Permutation_nil in P. discriminate.
+  - apply Permutation_sym, Permutation_nil in P. discriminate.
+Qed.
+
+(* ================================================================================================
+   dispatch over the translator's list of order-relevant sites (Gen.T_C09.order_relevant_models).
+   A name without a transcription has obligation False: undischargeable, so a new site breaks [sites_full]. *)
+Definition site_obligation (m : str) : Prop :=
+  if str_eqb m m_typing_imports_render then
+    forall is_stdlib classify c0 l1 l2, wf_collector c0 = true -> Permutation l1 l2 ->
+      typing_imports_render is_stdlib classify c0 l1 = typing_imports_render is_stdlib classify c0 l2
+  else if str_eqb m m_show_diffs_fs then
+    forall old old' new new', wf_tree old = true -> Permutation old old' -> Permutation new new' ->
+      show_diffs old new = show_diffs old' new' /\
+      Permutation (differing_g str_eqb old new) (differing_g str_eqb old' new')
+  else False.
+
+Theorem sites_full : forall m, In m order_relevant_models -> site_obligation m.
+Proof.
+  intros m Hin. unfold order_relevant_models in Hin. simpl in Hin.
+  repeat (destruct Hin as [<-|Hin]; [unfold site_obligation; vm_compute str_eqb; first [exact site2_invariant | exact show_diffs_fs_order]|]).
+  contradiction.
+Qed.
